@@ -94,7 +94,7 @@ func init() {
 			swap := r.P.Func("util/ds", "(*Heap).swap")
 			si := swap.Pkg.TypesInfo
 			nAssign := 0
-			ast.Inspect(swap.Decl.Body, func(nd ast.Node) bool {
+			inspect(swap.Decl.Body, func(nd ast.Node) bool {
 				if call, ok := nd.(*ast.CallExpr); ok && prog.SelField(si, call.Fun) == assign && len(call.Args) == 2 {
 					// assignIndex(h.data[k], k)
 					if ix, ok := ast.Unparen(call.Args[0]).(*ast.IndexExpr); ok && prog.SelField(si, ix.X) == data && types.ExprString(ix.Index) == types.ExprString(call.Args[1]) {
@@ -108,7 +108,7 @@ func init() {
 				r.Fail(swap.Name()+":assign-index", swap.Decl.Pos(), nil, "Heap.swap must call assignIndex(h.data[i], i) and assignIndex(h.data[j], j) after swapping (found %d consistent calls): the partitioned queue would fix the wrong heap position", nAssign)
 			}
 			okSwap := false
-			ast.Inspect(swap.Decl.Body, func(nd ast.Node) bool {
+			inspect(swap.Decl.Body, func(nd ast.Node) bool {
 				if as, ok := nd.(*ast.AssignStmt); ok && len(as.Lhs) == 2 && len(as.Rhs) == 2 {
 					if types.ExprString(as.Lhs[0]) == types.ExprString(as.Rhs[1]) && types.ExprString(as.Lhs[1]) == types.ExprString(as.Rhs[0]) {
 						okSwap = true
@@ -125,7 +125,7 @@ func init() {
 			r.Site(push.Decl.Pos(), "Heap.Push appends, assigns the index, sifts up")
 			pi := push.Pkg.TypesInfo
 			var posApp, posAsg, posUp token.Pos
-			ast.Inspect(push.Decl.Body, func(nd ast.Node) bool {
+			inspect(push.Decl.Body, func(nd ast.Node) bool {
 				switch x := nd.(type) {
 				case *ast.AssignStmt:
 					if len(x.Lhs) == 1 && prog.SelField(pi, x.Lhs[0]) == data {
@@ -149,7 +149,7 @@ func init() {
 			pop := r.P.Func("util/ds", "(*Heap).Pop")
 			qi := pop.Pkg.TypesInfo
 			var sawMinus1, sawZero, sawDown bool
-			ast.Inspect(pop.Decl.Body, func(nd ast.Node) bool {
+			inspect(pop.Decl.Body, func(nd ast.Node) bool {
 				if call, ok := nd.(*ast.CallExpr); ok {
 					if prog.SelField(qi, call.Fun) == assign && len(call.Args) == 2 {
 						if tv, ok := qi.Types[call.Args[1]]; ok && tv.Value != nil {
@@ -180,7 +180,7 @@ func init() {
 				a, b, op string
 			}
 			var conds []want
-			ast.Inspect(dn.Decl.Body, func(nd ast.Node) bool {
+			inspect(dn.Decl.Body, func(nd ast.Node) bool {
 				b, ok := nd.(*ast.BinaryExpr)
 				if !ok {
 					return true
@@ -221,7 +221,7 @@ func init() {
 			for _, fn := range []string{"(*Heap).down", "(*Heap).up"} {
 				f := r.P.Func("util/ds", fn)
 				arithInfo = f.Pkg.TypesInfo
-				ast.Inspect(f.Decl.Body, func(nd ast.Node) bool {
+				inspect(f.Decl.Body, func(nd ast.Node) bool {
 					if as, ok := nd.(*ast.AssignStmt); ok && as.Tok == token.DEFINE {
 						for i, l := range as.Lhs {
 							if i < len(as.Rhs) {
@@ -256,7 +256,7 @@ func init() {
 			upF := r.P.Func("util/ds", "(*Heap).up")
 			ui := upF.Pkg.TypesInfo
 			okUp := false
-			ast.Inspect(upF.Decl.Body, func(nd ast.Node) bool {
+			inspect(upF.Decl.Body, func(nd ast.Node) bool {
 				b, ok := nd.(*ast.BinaryExpr)
 				if !ok || b.Op != token.GEQ {
 					return true
@@ -277,7 +277,7 @@ func init() {
 			fix := r.P.Func("util/ds", "(*Heap).Fix")
 			fi := fix.Pkg.TypesInfo
 			okFix := false
-			ast.Inspect(fix.Decl.Body, func(nd ast.Node) bool {
+			inspect(fix.Decl.Body, func(nd ast.Node) bool {
 				if is, ok := nd.(*ast.IfStmt); ok {
 					if u, ok := ast.Unparen(is.Cond).(*ast.UnaryExpr); ok && u.Op == token.NOT && r.exprCalls(fi, u.X, down) && r.exprCalls(fi, is.Body, up) {
 						okFix = true
@@ -338,7 +338,7 @@ func init() {
 			wo := r.P.Func("util/ds", "(*Set).Without")
 			wi := wo.Pkg.TypesInfo
 			delM, delL := false, false
-			ast.Inspect(wo.Decl.Body, func(nd ast.Node) bool {
+			inspect(wo.Decl.Body, func(nd ast.Node) bool {
 				if call, ok := nd.(*ast.CallExpr); ok {
 					if id, ok := call.Fun.(*ast.Ident); ok && id.Name == "delete" && len(call.Args) == 2 && prog.SelField(wi, call.Args[0]) == mF {
 						delM = true
@@ -391,7 +391,7 @@ func init() {
 			smi := sm.Pkg.TypesInfo
 			smM, smL := r.P.Field("util/ds", "SortedMap", "m"), r.P.Field("util/ds", "SortedMap", "list")
 			var hadVar types.Object
-			ast.Inspect(sm.Decl.Body, func(nd ast.Node) bool {
+			inspect(sm.Decl.Body, func(nd ast.Node) bool {
 				if as, ok := nd.(*ast.AssignStmt); ok && len(as.Lhs) == 2 && len(as.Rhs) == 1 {
 					if ix, ok := ast.Unparen(as.Rhs[0]).(*ast.IndexExpr); ok && prog.SelField(smi, ix.X) == smM {
 						hadVar = prog.IdentObj(smi, as.Lhs[1])
@@ -434,7 +434,7 @@ func init() {
 			dl := r.P.Func("util/ds", "(*SortedMap).Delete")
 			dli := dl.Pkg.TypesInfo
 			var foundVar types.Object
-			ast.Inspect(dl.Decl.Body, func(nd ast.Node) bool {
+			inspect(dl.Decl.Body, func(nd ast.Node) bool {
 				if as, ok := nd.(*ast.AssignStmt); ok && len(as.Lhs) == 2 && len(as.Rhs) == 1 {
 					if _, ok := isCallToNamed(dli, as.Rhs[0], "slices", "BinarySearch"); ok {
 						foundVar = prog.IdentObj(dli, as.Lhs[1])
@@ -497,7 +497,7 @@ func init() {
 				info := f.Pkg.TypesInfo
 				newHeap := r.P.FuncObj("util/ds", "NewHeap")
 				okCmp := false
-				ast.Inspect(f.Decl.Body, func(nd ast.Node) bool {
+				inspect(f.Decl.Body, func(nd ast.Node) bool {
 					call, ok := nd.(*ast.CallExpr)
 					if !ok || r.P.CalleeFunc(info, call) != newHeap || len(call.Args) < 1 {
 						return true
@@ -512,7 +512,7 @@ func init() {
 							names = append(names, nm.Name)
 						}
 					}
-					ast.Inspect(lit.Body, func(m ast.Node) bool {
+					inspect(lit.Body, func(m ast.Node) bool {
 						if ret, ok := m.(*ast.ReturnStmt); ok && len(ret.Results) == 1 {
 							if c, ok := ast.Unparen(ret.Results[0]).(*ast.CallExpr); ok && r.isParam(f, c.Fun, 1) && len(c.Args) == 2 && len(names) == 2 {
 								if types.ExprString(c.Args[0]) == names[0]+".item" && types.ExprString(c.Args[1]) == names[1]+".item" {
@@ -547,7 +547,7 @@ func init() {
 			pop := r.P.FuncObj("util/ds", "(*Heap).Pop")
 			push := r.P.FuncObj("util/ds", "(*Heap).Push")
 			var popped types.Object
-			ast.Inspect(itLit.Body, func(nd ast.Node) bool {
+			inspect(itLit.Body, func(nd ast.Node) bool {
 				if as, ok := nd.(*ast.AssignStmt); ok && len(as.Rhs) == 1 && len(as.Lhs) == 2 {
 					if call, ok := ast.Unparen(as.Rhs[0]).(*ast.CallExpr); ok && r.P.CalleeFunc(mi, call) == pop {
 						popped = prog.IdentObj(mi, as.Lhs[0])
@@ -556,7 +556,7 @@ func init() {
 				return true
 			})
 			okRefill, okPush := false, false
-			ast.Inspect(itLit.Body, func(nd ast.Node) bool {
+			inspect(itLit.Body, func(nd ast.Node) bool {
 				switch x := nd.(type) {
 				case *ast.CallExpr:
 					// nextFns[ii.index]()
@@ -582,7 +582,7 @@ func init() {
 			// yields: (1) at exhaustion if prev != nil; (2) when the key changes, before prev is replaced
 			yieldObj := mi.Defs[itLit.Type.Params.List[0].Names[0]]
 			var prev types.Object
-			ast.Inspect(itLit.Body, func(nd ast.Node) bool {
+			inspect(itLit.Body, func(nd ast.Node) bool {
 				if vs, ok := nd.(*ast.ValueSpec); ok && len(vs.Names) == 1 && prev == nil {
 					if _, isPtr := mi.Defs[vs.Names[0]].Type().(*types.Pointer); isPtr {
 						prev = mi.Defs[vs.Names[0]]
@@ -602,7 +602,7 @@ func init() {
 				return ok && prog.IdentObj(c.Info, sel.X) == prev
 			}
 			var okVar types.Object
-			ast.Inspect(itLit.Body, func(nd ast.Node) bool {
+			inspect(itLit.Body, func(nd ast.Node) bool {
 				if as, ok := nd.(*ast.AssignStmt); ok && len(as.Rhs) == 1 && len(as.Lhs) == 2 {
 					if call, ok := ast.Unparen(as.Rhs[0]).(*ast.CallExpr); ok && r.P.CalleeFunc(mi, call) == pop {
 						okVar = prog.IdentObj(mi, as.Lhs[1])
@@ -649,7 +649,7 @@ func init() {
 				r.Site(f.Decl.Pos(), f.Name()+": descent direction")
 				// first loop = the search loop
 				var loop *ast.ForStmt
-				ast.Inspect(f.Decl.Body, func(nd ast.Node) bool {
+				inspect(f.Decl.Body, func(nd ast.Node) bool {
 					if fs, ok := nd.(*ast.ForStmt); ok && loop == nil {
 						loop = fs
 					}
@@ -758,7 +758,7 @@ func init() {
 			root := r.P.Field("dkv/ziptree", "ZipTree", "root")
 			copied := map[string]bool{}
 			relinks := 0
-			ast.Inspect(put.Decl.Body, func(nd ast.Node) bool {
+			inspect(put.Decl.Body, func(nd ast.Node) bool {
 				as, ok := nd.(*ast.AssignStmt)
 				if !ok || len(as.Lhs) != 1 || len(as.Rhs) != 1 {
 					return true
@@ -800,7 +800,7 @@ func init() {
 			f := r.P.Func("util/ds", "NewPartitionedPriorityQueue")
 			info := f.Pkg.TypesInfo
 			var lit *ast.FuncLit
-			ast.Inspect(f.Decl.Body, func(nd ast.Node) bool {
+			inspect(f.Decl.Body, func(nd ast.Node) bool {
 				if as, ok := nd.(*ast.AssignStmt); ok && len(as.Lhs) == 1 && len(as.Rhs) == 1 {
 					if l, ok := ast.Unparen(as.Rhs[0]).(*ast.FuncLit); ok && lit == nil && l.Type.Results != nil && len(l.Type.Params.List) >= 1 {
 						// the comparator literal passed to NewHeap: two partitions in, int out
@@ -822,7 +822,7 @@ func init() {
 			// operands: the two comma-ok flags of Peek and the element comparison
 			var oks []string
 			var cmpText string
-			ast.Inspect(lit.Body, func(nd ast.Node) bool {
+			inspect(lit.Body, func(nd ast.Node) bool {
 				switch x := nd.(type) {
 				case *ast.AssignStmt:
 					if len(x.Lhs) == 2 && len(x.Rhs) == 1 {
